@@ -7,6 +7,7 @@ The model is functional, so "operands are left unchanged" has no content here: i
 -/
 import OptiVerif.Lemmas.BinSeq
 import OptiVerif.Lemmas.BinSeqStrBits
+import OptiVerif.Lemmas.BinSeqStrErr
 import OptiVerif.Lemmas.BinSeqCmp
 
 namespace OptiVerif.Props.C15
@@ -80,23 +81,52 @@ theorem mk_closed (d : Data) (bits : List Nat) (h : mk d = some (.ok bits)) : Va
         exact valid_map_bitNat cs
       · cases h
 
-/-- non-string data is refused with ValueError only -/
-theorem mk_error_kind (a : Arr) (e : Wire.Err) (h : mk (.arr a) = some (.error e)) : e = .ValueError := by
-  have h : some (mkArr a) = some (.error e) := h
-  rw [Option.some_inj] at h
-  cases a with
-  | ragged => injection h with h; exact h.symm
-  | nd d cs => rw [mkArr_nd] at h; injection h with h; exact h.symm
-  | scalar c =>
-    rw [mkArr_scalar] at h
-    split at h
-    · cases h
-    · injection h with h; exact h.symm
-  | vec cs =>
-    rw [mkArr_vec] at h
-    split at h
-    · cases h
-    · injection h with h; exact h.symm
+/-- **every refusal of the constructor is a ValueError** — strings included: the OverflowError that `str2array` raises
+    for an integer literal outside the C long range is converted by the constructor -/
+theorem mk_error_kind (d : Data) (e : Wire.Err) (h : mk d = some (.error e)) : e = .ValueError := by
+  have harr : ∀ a : Arr, mkArr a = .error e → e = .ValueError := by
+    intro a h
+    cases a with
+    | ragged => injection h with h; exact h.symm
+    | nd d cs => rw [mkArr_nd] at h; injection h with h; exact h.symm
+    | scalar c =>
+      rw [mkArr_scalar] at h
+      split at h
+      · cases h
+      · injection h with h; exact h.symm
+    | vec cs =>
+      rw [mkArr_vec] at h
+      split at h
+      · cases h
+      · injection h with h; exact h.symm
+  rw [mk_eq] at h
+  split at h
+  · cases h
+  · next e' he =>
+    have : e' = e := by injection h with h; injection h
+    subst this
+    cases d with
+    | arr a => cases he
+    | str s =>
+      simp only [toArrCtor] at he
+      split at he
+      · cases he
+      · next e0 hs =>
+        have hk := str2array_err s e0 hs
+        injection he with he
+        injection he with he
+        rcases hk with rfl | rfl <;> simp at he <;> exact he.symm
+      · cases he
+  · next a _ =>
+    rw [Option.some_inj] at h
+    exact harr a h
+
+/-- `+` and reflected `+` call `str2array` without that conversion: the same literal as an operand still ends in the
+    OverflowError stand-in (what the code does now; the statement fixes the error kind only for construction) -/
+theorem add_overflow_escapes :
+    add [0, 1] (.data (.str [57,57,57,57,57,57,57,57,57,57,57,57,57,57,57,57,57,57,57,57])) = some (.error .Other) ∧
+    mk (.str [57,57,57,57,57,57,57,57,57,57,57,57,57,57,57,57,57,57,57,57]) = some (.error .ValueError) := by
+  decide
 
 /-- container forms agree: a plain bit string (characters `0 1 space comma`, not empty) builds the sequence of its digits -/
 theorem mk_str_bits (s : List Nat) (h : Plain s) :
@@ -111,7 +141,7 @@ theorem mk_str_bits (s : List Nat) (h : Plain s) :
     · exact absurd hk (by decide)
     · exact absurd hk (by decide)
   refine ⟨?_, hdig⟩
-  simp only [mk, toArr, str2array_plain s h, parsedToArr, Option.map_some]
+  simp only [mk, toArrCtor, str2array_plain s h, parsedToArr, Option.map_some]
   show some (mkArr (.vec ((s.filter keep).map cellOf))) = _
   have hok : cellsOK ((s.filter keep).map cellOf) = true := by
     rw [cellsOK, List.all_eq_true]
